@@ -147,6 +147,23 @@ def check(case, rec):
     gv, gm = Q.normalise(res, case["rma"], "ccube.%s" % agg)
     gv, gm = fix0d(gv, gm, exp_v)
     Q.compare("ccube.%s" % agg, gv, gm, exp_v, exp_m, tol_abs=tol)
+    w_spec0 = case["weights"]
+    if agg == "count" and nd and N >= 2 and not case.get("recipe") and (w_spec0 is None or w_spec0["kind"] == "scalar"):
+        # a count function object (no weights or a scalar weight) that has served a cube over the first half of the rows
+        # is then used on the full cube: the three ways of counting must still agree
+        from catii import ffuncs
+
+        ra = Q.rma_arg(case["rma"])
+        with libcall("one ffunc_count object on a cube over half of the rows, then on the full cube"):
+            fobj = ffuncs.ffunc_count(warg, None, case["ignore"], ra)
+            commons0 = [d["common"] for d in case["dims"]]
+            half = type(cc)([Q.build_index(a[: N // 2], c) for a, c in zip(dense, commons0)], tuple(full))
+            half.calculate([fobj])
+            cc2, _ = Q.make_ccube(case, dense)
+            res2 = cc2.calculate([fobj])[0]
+        gv2, gm2 = Q.normalise(res2, case["rma"], "ccube.count (re-used function object)")
+        gv2, gm2 = fix0d(gv2, gm2, exp_v)
+        Q.compare("ccube.count [function object re-used after a cube of %d rows]" % (N // 2), gv2, gm2, exp_v, exp_m, tol_abs=tol)
 
     if sharing == "fresh":
         farg, warg, _, _, _, _ = expected(case, dense, full)
